@@ -384,6 +384,8 @@ def _large_problem(job):
 
     ds, ref = build(), build()
     old = md.SERIALIZE_MINIMAL_THRESHOLD
+    if job.get("via_file"):
+        return _file_problem(job, ds, ref, md, old)
     try:
         if fmt == "default_threshold":
             data = ds.serialize()
@@ -400,6 +402,48 @@ def _large_problem(job):
         return f"roundtrip-mazes:{fmt} | grid {n}, {len(lengths)} mazes with solution lengths up to {max(lengths)}: {why[:200]}"
     if fmt != "full" and data["__format__"] != "MazeDataset" and not _collected_ok(loaded.generation_metadata_collected, lengths, n):
         return f"roundtrip-metadata:{fmt} | grid {n}"
+    return None
+
+
+def _file_problem(job, ds, ref, md, old):
+    """the same datasets through a real file (ZANJ writer and reader; concrete): what comes back from disk must be what the in-memory
+    round trip gives - in particular past ZANJ's external-list threshold of 256 items"""
+    import shutil
+    import tempfile
+    from pathlib import Path
+
+    from maze_dataset import MazeDataset
+    from zanj import ZANJ
+
+    n, lengths, fmt = job["n"], job["lengths"], job["fmt"]
+    d = Path(tempfile.mkdtemp(prefix="verif-c05-"))
+    try:
+        f = d / "ds.zanj"
+        try:
+            if fmt == "full":
+                md.SERIALIZE_MINIMAL_THRESHOLD = None
+                ds.save(f)
+            elif fmt == "default_threshold":
+                ds.save(f)
+            else:
+                ZANJ().save(getattr(ds, FORMATS[fmt])(), f)
+            loaded = MazeDataset.read(f)
+        except Exception as e:
+            return f"roundtrip-raises:{fmt}-file | grid {n}, {len(lengths)} mazes through a file: {type(e).__name__}: {str(e)[:100]}"
+        finally:
+            md.SERIALIZE_MINIMAL_THRESHOLD = old
+        if not isinstance(loaded, MazeDataset):
+            return f"roundtrip-mazes:{fmt}-file | reading the file back gives a {type(loaded).__name__}"
+        try:
+            why = _same_mazes(ref, loaded)
+        except Exception as e:
+            why = f"loaded items are not mazes ({type(e).__name__}: {str(e)[:80]})"
+        if why:
+            return f"roundtrip-mazes:{fmt}-file | grid {n}, {len(lengths)} mazes through a file: {why[:200]}"
+        if _cfg_js(loaded.cfg) != _cfg_js(ds.cfg):
+            return f"roundtrip-cfg:{fmt}-file | configuration differs after the file round trip"
+    finally:
+        shutil.rmtree(d, ignore_errors=True)
     return None
 
 
@@ -451,6 +495,12 @@ def jobs(tier, seed):
         big += [(16, [200] * 120, "default_threshold"), (20, [400, 129, 2], "minimal"), (20, [400, 129, 2], "soln_cat"), (20, [300], "full")]
     for n, lengths, fmt in big:
         out.append(dict(h="large", n=n, lengths=lengths, fmt=fmt, label=f"large:{fmt}:n={n}:{len(lengths)}x<= {max(lengths)}"))
+    # through real files (concrete): small and past ZANJ's external-list threshold of 256 items, every format
+    files = [(3, [2, 3, 1], "full"), (3, [2, 3] * 150, "full"), (4, [3] * 120, "default_threshold"), (3, [2, 3, 1, 4] * 3, "soln_cat"), (3, [3, 1] * 140, "minimal")]
+    if not q:
+        files += [(5, [7] * 1000, "full"), (3, [1, 2] * 200, "soln_cat")]
+    for n, lengths, fmt in files:
+        out.append(dict(h="large", n=n, lengths=lengths, fmt=fmt, via_file=True, label=f"file:{fmt}:n={n}:{len(lengths)} mazes"))
     out[0]["twin"] = True
     return out
 
@@ -467,14 +517,14 @@ META = dict(
         quick="in memory; every connection bit and every solution cell symbolic; all ragged solution-length vectors over 1..3 for 1..3 mazes on 2x2 / 3x3 for the two "
               "minimal formats; full format on 2x2 with symbolic solution cells; serialize()/load() with the minimal-format threshold symbolic (or None); collections of "
               "2-3 members incl. empty members and members that share a name; datasets re-assembled from loaded mazes (stale maze count, metadata already collected); plus concrete (non-symbolic) round trips at sizes beyond the symbolic bound: grids 12 and 16 with solution "
-              "lengths 127..256, 99 / 100 / 101 mazes against the default threshold",
+              "lengths 127..256, 99 / 100 / 101 mazes against the default threshold; and concrete round trips through real files (ZANJ) in every format with 3..300 mazes (past ZANJ's external-list threshold of 256)",
         thorough="length vectors up to 4 mazes / lengths 5, more collections, concrete runs on 20x20 with 400-cell solutions and 120 mazes",
     ),
     degenerate=dict(format_full="json_serialize of arrays realises symbolic values: the solution cells are forked to concrete values (enumeration)",
-                    large="no symbolic input (concrete evaluation with real numpy)"),
+                    large="no symbolic input (concrete evaluation with real numpy; the `file:` instances additionally go through the real ZANJ writer and reader)"),
     stubs=stubs_description(np_modules=["maze_dataset.maze.lattice_maze", "maze_dataset.dataset.maze_dataset"], stub_ascii=False) + [
         "SERIALIZE_MINIMAL_THRESHOLD -> symbolic integer / None (dispatch harness)"],
-    outside=["every path through a file: ZANJ, zip, np.save / json text are C and I/O code that realises symbolic values at once - not decided by this technique",
+    outside=["symbolic treatment of paths through a file: ZANJ, zip, np.save / json text are C and I/O code that realises symbolic values at once; files are covered only by the concrete round trips listed in the bounds (3..300 mazes per format; 1000 thorough)",
              "narrow integer storage (int8) is modelled with numpy's wrap-around by the shim, but the symbolic harnesses run on grids 2 and 3 only; the int8 boundary (127/128) itself is exercised by the concrete runs",
              "datasets without any generation metadata in the minimal formats (the code asserts)"],
     assumptions=["zanj.load_item_recursive passes array objects through unchanged", "per-maze generation metadata of the shape the generators produce"],
